@@ -119,6 +119,12 @@ var c12Families = []struct {
 	{"nested-joins-two-errors", func(n int) string {
 		return "T | take 1.5" + strings.Repeat(" | join (R | bogus", n) + " | project" + strings.Repeat(") on $left.a == $right.b", n) + " | top x by"
 	}},
+	// flat inputs with one diagnostic per unit (no nesting): hundreds of diagnostics in a few kilobytes
+	{"bad-operators", func(n int) string { return "T" + strings.Repeat("|x", n) }},
+	{"bad-statements", func(n int) string { return strings.Repeat("x y;", n) + "T" }},
+	{"bad-columns", func(n int) string { return "T | project " + strings.Repeat("1,", n) + "a" }},
+	{"bad-sort-terms", func(n int) string { return "T | sort by " + strings.Repeat("asc,", n) + "a" }},
+	{"bad-operators-lines", func(n int) string { return "T" + strings.Repeat("\n| bogus 'x", n) }},
 	{"unbalanced-close", func(n int) string { return "T | where a" + strings.Repeat(")", n) }},
 	{"unbalanced-open", func(n int) string { return "T | where " + strings.Repeat("(", n) }},
 	{"open-brackets", func(n int) string { return "T | where " + strings.Repeat("a[(", n) }},
